@@ -13,5 +13,6 @@ export GOFLAGS=-mod=mod GOPROXY=off GOSUMDB=off GOTOOLCHAIN=local
 VERIF_REPO="$W" "$(dirname "$0")/../check" "$PID" --tier "$TIER"
 RC=$?
 git -C /repo worktree remove --force "$W"
-rm -rf /verif/.build/alt-*
+TAG=$(printf %s "$W" | sha1sum | cut -c1-8)
+rm -rf "/verif/.build/alt-$TAG" /verif/.build/*-"$TAG" 2>/dev/null
 exit $RC
